@@ -368,7 +368,10 @@ def srcfan_jobs(pid, tier):
     J = []
     for name, kw in (("fa", dict()), ("fa-one-sink", dict(sink_fanin=True)), ("rr", dict(src_sel="ROUND_ROBIN")), ("generator", dict(src_sel="generator", n_items=3)),
                      ("nonblocking-fa", dict(blocking=False)), ("nonblocking-rr", dict(blocking=False, src_sel="ROUND_ROBIN", n_items=5)),
-                     ("nonblocking-callable", dict(blocking=False, src_sel="callable", n_items=3))):
+                     ("nonblocking-callable", dict(blocking=False, src_sel="callable", n_items=3)),
+                     ("generator-with-out-of-range-answers", dict(src_sel="generator-bad", n_items=2))):
+        if name.endswith("out-of-range-answers") and pid != "C15":
+            continue        # a rejected answer ends the run with the library's IndexError: only C15 asks for that
         kw = dict(kw)
         kw["props"] = (pid,)
         if tier != "quick":
